@@ -235,6 +235,74 @@ class Model:
             c.is_enum = any((isinstance(b, tuple) and b[1].split(".")[-1] == "Enum") for b in c.bases) or \
                 any(isinstance(b, ClassInfo) and b.is_enum for b in c.bases)
         self._mro = {}
+        self._expand_property_factories()
+
+    def _expand_property_factories(self):
+        """class level `name = factory(args)` where the package function `factory` ends in `return property(g[, s[, d]])` over
+        functions nested in it: the accessors are registered as the class's getter / setter / deleter `name`, specialised by
+        substituting the factory's parameters with the call's arguments (constants, or names when factory and class share a
+        module). Anything else stays an unmodelled class attribute."""
+        import copy
+        for c in list(self.classes.values()):
+            for attr, val in list(c.attrs.items()):
+                if not isinstance(val, ast.Call) or attr in c.getters:
+                    continue
+                r = self.resolve_expr_static(c.module, val.func)
+                if not r or r[0] != "func":
+                    continue
+                F = r[1]
+                body = [b for b in F.node.body if not (isinstance(b, ast.Expr) and isinstance(b.value, ast.Constant))]
+                if not body or not isinstance(body[-1], ast.Return) or not isinstance(body[-1].value, ast.Call):
+                    continue
+                pc = body[-1].value
+                if not (isinstance(pc.func, ast.Name) and pc.func.id == "property"):
+                    continue
+                if not all(isinstance(b, ast.FunctionDef) or (isinstance(b, ast.Assign) and isinstance(b.value, ast.Constant))
+                           for b in body[:-1]):
+                    continue
+                nested = {b.name: b for b in body[:-1] if isinstance(b, ast.FunctionDef)}
+                roles = dict(zip(("fget", "fset", "fdel"), pc.args))
+                roles.update({k.arg: k.value for k in pc.keywords if k.arg in ("fget", "fset", "fdel")})
+                if not roles or not all(isinstance(v, ast.Name) and v.id in nested for v in roles.values()):
+                    continue
+                # parameter -> argument expression
+                a = F.node.args
+                names = [x.arg for x in a.posonlyargs + a.args]
+                if a.vararg or a.kwarg or len(val.args) > len(names) or any(isinstance(x, ast.Starred) for x in val.args):
+                    continue
+                sub = dict(zip(names, val.args))
+                sub.update({k.arg: k.value for k in val.keywords if k.arg in names})
+                defaults = dict(zip(names[len(names) - len(a.defaults):], a.defaults))
+                for nm in names:
+                    sub.setdefault(nm, defaults.get(nm))
+                if any(v is None for v in sub.values()):
+                    continue
+                same = F.module is c.module
+                if not all(isinstance(v, ast.Constant) or (same and isinstance(v, (ast.Name, ast.Attribute))) for v in sub.values()):
+                    continue
+
+                class _Subst(ast.NodeTransformer):
+                    def visit_Name(self, node):
+                        if isinstance(node.ctx, ast.Load) and node.id in sub:
+                            return ast.copy_location(copy.deepcopy(sub[node.id]), node)
+                        return node
+                for role, kind in (("fget", "get"), ("fset", "set"), ("fdel", "del")):
+                    if role not in roles:
+                        continue
+                    src = nested[roles[role].id]
+                    if any(isinstance(x, ast.Name) and isinstance(x.ctx, ast.Store) and x.id in sub for x in ast.walk(src)) or \
+                            any(x.arg in sub for x in src.args.args):
+                        break
+                    node = _Subst().visit(copy.deepcopy(src))
+                    node.name = attr
+                    ast.fix_missing_locations(node)
+                    f = Func(F.module, c, node, kind)
+                    {"get": c.getters, "set": c.setters, "del": c.deleters}[kind][attr] = f
+                    self.funcs[f.qual] = f
+                    self._scan_nested(f)
+                else:
+                    c.attrs.pop(attr, None)
+                    c.attr_alts.pop(attr, None)
 
     def mro(self, c):
         if isinstance(c, str):
